@@ -4,6 +4,7 @@ import (
 	"bufio"
 	"context"
 	"encoding/json"
+	"errors"
 	"flag"
 	"fmt"
 	"net/http"
@@ -265,6 +266,65 @@ func cmdReqRun(args []string) int {
 		defer cancel()
 		key := keyOf(c.s("key"))
 		var err error
+		if fk := c.s("fault"); fk != "" {
+			// one call of that kind fails in the engine (under the storage metrics wrapper where the engine kind has one)
+			ferr := errors.New("injected engine fault")
+			if bl := env.Store.Below; bl != nil {
+				switch fk {
+				case "iteropen":
+					bl.ArmIterOpen(ferr)
+				case "next":
+					bl.ArmNext(ferr)
+				case "get":
+					bl.ArmGet(ferr)
+				case "commit":
+					bl.ArmCommit(ferr, false)
+				case "del":
+					bl.ArmDel(ferr)
+				}
+				defer bl.Disarm()
+			} else {
+				once := func() func() bool {
+					fired := false
+					var mu sync.Mutex
+					return func() bool { mu.Lock(); defer mu.Unlock(); f := !fired; fired = true; return f }
+				}()
+				switch fk {
+				case "next", "iteropen":
+					env.Store.IterFault = func(string, int, int) error {
+						if once() {
+							return ferr
+						}
+						return nil
+					}
+					defer func() { env.Store.IterFault = nil }()
+				case "get":
+					env.Store.GetFault = func(string) error {
+						if once() {
+							return ferr
+						}
+						return nil
+					}
+					defer func() { env.Store.GetFault = nil }()
+				case "commit":
+					env.Store.CommitFault = func(string, int, []gate.Event) *gate.Fault {
+						if once() {
+							return &gate.Fault{Kind: "err"}
+						}
+						return nil
+					}
+					defer func() { env.Store.CommitFault = nil }()
+				case "del":
+					env.Store.DelFault = func(string, int, gate.Event) string {
+						if once() {
+							return "err"
+						}
+						return ""
+					}
+					defer func() { env.Store.DelFault = nil }()
+				}
+			}
+		}
 		// a gRPC server encodes what a unary handler returns; a response that cannot be encoded kills the process there
 		enc := func(resp interface{}, e error) error {
 			if e == nil {
